@@ -37,7 +37,7 @@ def main(argv):
         # the demos were written against /tmp/mut_<prop>: point them at this worktree
         src = open(demo).read()
         local_demo = os.path.join(wt, "_demo_seeded.py")
-        open(local_demo, "w").write(src.replace("/tmp/mut4_%s" % prop, wt).replace("/tmp/mut3_%s" % prop, wt).replace("/tmp/mut2_%s" % prop, wt).replace("/tmp/mut_%s" % prop, wt))
+        open(local_demo, "w").write(src.replace("/tmp/mut5_%s" % prop, wt).replace("/tmp/mut4_%s" % prop, wt).replace("/tmp/mut3_%s" % prop, wt).replace("/tmp/mut2_%s" % prop, wt).replace("/tmp/mut_%s" % prop, wt))
         r0 = sh("unshare -n sh -c 'ip link set lo up; exec /venv/bin/python %s'" % local_demo, cwd=wt, env=env, timeout=300)
         res["demo_exit_original"] = r0.returncode
         a = sh("git -C %s apply %s" % (wt, os.path.join(cand, "patch.diff")))
